@@ -383,6 +383,50 @@ func (p *Program) declareFamily(fd *FamilyDecl, pkgName string) error {
 		}
 		fam.Prefixes[p.funcKey(fn)] = len(fn.Params)
 		p.prefixFns[p.funcKey(fn)] = fam
+		// parameters of the prefix constructor fix the key components of the same name (default: the leading ones)
+		if kf := p.funcsByKey[fam.KeyFunc]; kf != nil {
+			var pos []int
+			okAll := true
+			for _, pp := range fn.Params {
+				found := -1
+				for i, kp := range kf.Params {
+					if kp.Name() == pp.Name() {
+						found = i
+					}
+				}
+				if found < 0 {
+					okAll = false
+					break
+				}
+				pos = append(pos, found)
+			}
+			leading := okAll
+			for i, q := range pos {
+				if q != i {
+					leading = false
+				}
+			}
+			if okAll && !leading {
+				if fam.PrefixPos == nil {
+					fam.PrefixPos = map[string][]int{}
+				}
+				fam.PrefixPos[p.funcKey(fn)] = pos
+			}
+		}
+	}
+	for pf, ufs := range fd.PrefixBy {
+		fn := p.findFunc(pf)
+		if fn == nil {
+			return fmt.Errorf("family %s: prefixby function %s not found", fd.Name, pf)
+		}
+		if len(fam.KeySorts) != 1 || len(ufs) != len(fn.Params) {
+			return fmt.Errorf("family %s: prefixby %s needs a single key component and one projection per parameter", fd.Name, pf)
+		}
+		if fam.PrefixBy == nil {
+			fam.PrefixBy = map[string][]string{}
+		}
+		fam.PrefixBy[p.funcKey(fn)] = ufs
+		p.prefixFns[p.funcKey(fn)] = fam
 	}
 	return nil
 }
@@ -411,8 +455,31 @@ func (p *Program) keyCall(x *Exec, st *State, fn *ssa.Function, args []Val) (Val
 	}
 	if fam, ok := p.prefixFns[key]; ok {
 		kv := &KeyVal{Fam: fam, Partial: true}
+		if ufs, by := fam.PrefixBy[key]; by {
+			kv.By = ufs
+			for i, a := range args {
+				var t *Term
+				switch v := a.(type) {
+				case *Term:
+					t = v
+				default:
+					t = x.coerceKeyArg(a, SBytes)
+				}
+				if t == nil {
+					x.errorf("prefix constructor %s: argument %d not a term (%T)", key, i, a)
+					return nil, false
+				}
+				kv.Args = append(kv.Args, t)
+			}
+			return kv, true
+		}
+		kv.Pos = fam.PrefixPos[key]
 		for i, a := range args {
-			t := x.coerceKeyArg(a, fam.KeySorts[i])
+			ks := fam.KeySorts[i]
+			if kv.Pos != nil {
+				ks = fam.KeySorts[kv.Pos[i]]
+			}
+			t := x.coerceKeyArg(a, ks)
 			if t == nil {
 				x.errorf("prefix constructor %s: argument %d not a term (%T)", key, i, a)
 				return nil, false
